@@ -1,6 +1,7 @@
 //! Correspondence harness: drives the real selen code, writes protocol lines
 //! (`<suite>.ops`), its own results (`<suite>.impl`), oracle verdicts
 //! (`<suite>.oracle`) and the input distribution (`<suite>.stats.json`).
+mod core;
 mod out;
 mod rng;
 mod ss;
@@ -27,6 +28,10 @@ fn main() {
             let width: i32 = arg(&args, "--width", "3").parse().unwrap();
             ss::exhaustive(&mut out, -1, width, depth)
         }
+        "prune" => core::suite_prune(&mut out, seed, count),
+        "views" => core::suite_views(&mut out, seed, count, arg(&args, "--depth", "2").parse().unwrap()),
+        "views-exh" => core::suite_views_exhaustive(&mut out, arg(&args, "--universe", "2").parse().unwrap(), arg(&args, "--bound", "8").parse().unwrap()),
+        "prune-exh" => core::suite_prune_exhaustive(&mut out, arg(&args, "--universe", "2").parse().unwrap(), arg(&args, "--shard", "0").parse().unwrap(), arg(&args, "--shards", "1").parse().unwrap()),
         "replay" => {
             // re-run the ops of a file verbatim (used by --replay)
             let path = arg(&args, "--ops", "");
@@ -44,11 +49,15 @@ fn main() {
 fn replay(out: &mut Out, path: &str) {
     let text = std::fs::read_to_string(path).unwrap();
     let mut ssc: Option<ss::Case> = None;
+    let mut sc = core::StoreCase::new();
     for line in text.lines() {
         let w = line.split_whitespace().next().unwrap_or("");
         if w == "case" {
             out.case(line.split_whitespace().nth(1).unwrap_or("r"));
             ssc = None;
+            sc = core::StoreCase::new();
+        } else if w == "st.var" || w == "prune" || w == "ctx.min" || w == "ctx.max" {
+            core::replay_line(&mut sc, out, line);
         } else if w == "ss.new" || w == "ss.unchecked" || w == "ss.values" {
             ssc = ss::create(out, line);
         } else if w.starts_with("ss.") {
